@@ -60,6 +60,49 @@ Theorem C16_m3u_rename_confined : forall fs base dirp b d f' bb,
 Proof. exact rename_confined_sec. Qed.
 Print Assumptions C16_m3u_rename_confined.
 
+(* T1 in exact form, WITHOUT the scope hypothesis (this covers the scope note): whatever
+   passes the guard, the directory entry acted on lies inside the playlists directory, OR
+   it is a symbolic link -- wherever it is placed -- whose resolved target lies inside.
+   Nothing else can be created, replaced, renamed or removed. *)
+Theorem C16_m3u_entry_exact : forall fs base dirp b d f' bb,
+  walk false fs FUEL [] dirp = Some (d, S f') ->
+  resolve fs base = Ok bb ->
+  m3u_guard fs base (dirp ++ [b]) = Ok true ->
+  is_dot b = false ->
+  is_prefix bb d = true \/
+  (is_link_at fs d b = true /\
+   exists r, resolve fs (dirp ++ [b]) = Ok r /\ is_prefix bb (removelast r) = true).
+Proof. exact guard_entry_exact. Qed.
+Print Assumptions C16_m3u_entry_exact.
+
+Theorem C16_m3u_ops_exact : forall fs base dirp b d f' bb,
+  walk false fs FUEL [] dirp = Some (d, S f') -> resolve fs base = Ok bb -> is_dot b = false ->
+  (forall l, m3u_delete fs base (dirp ++ [b]) = Acts l ->
+     Forall (fun t => touch_inside bb t = true) l \/ link_to_inside fs bb dirp b d) /\
+  (forall l, m3u_save fs base (dirp ++ [b]) = Acts l ->
+     Forall (fun t => touch_inside bb t = true) l \/ link_to_inside fs bb dirp b d) /\
+  (forall newname l, is_dot newname = false -> m3u_rename fs base (dirp ++ [b]) newname = Acts l ->
+     Forall (fun t => touch_inside bb t = true) l \/ link_to_inside fs bb dirp b d).
+Proof. exact m3u_ops_exact_lemma. Qed.
+Print Assumptions C16_m3u_ops_exact.
+
+(* create(name): unconditional -- for every tree and every name (one component after
+   path_from_name) everything create touches is inside the resolved playlists directory. *)
+Theorem C16_m3u_create_confined : forall fs base n bb f' l,
+  walk false fs FUEL [] base = Some (bb, S f') -> is_dot n = false ->
+  m3u_create fs base n = Acts l -> Forall (fun t => touch_inside bb t = true) l.
+Proof. exact create_confined_lemma. Qed.
+Print Assumptions C16_m3u_create_confined.
+
+(* as_list(): only names of entries of the resolved playlists directory that have a
+   playlist extension and are regular files after following links. *)
+Theorem C16_m3u_as_list_names : forall fs base bb names n,
+  resolve fs base = Ok bb -> m3u_as_list_names fs base = Ok names -> In n names ->
+  exists x, In (n, x) (entries_at fs bb) /\ mem_str (suffix n) [M3U; M3U8] = true /\
+            exists r, resolve fs (bb ++ [n]) = Ok r /\ is_file fs r = true.
+Proof. exact as_list_names_lemma. Qed.
+Print Assumptions C16_m3u_as_list_names.
+
 (* Reads (lookup, get_items): for every tree and every path, with NO hypothesis on links:
    a file that is read lies inside the resolved playlists directory. *)
 Theorem C16_m3u_read_confined : forall fs base p bb l,
